@@ -245,12 +245,17 @@ class ExplorerScriptSsbDecompiler:
             # Jump as part of a control structure
             self.write_jump(label_id)
 
-    def source_map_add_opcode(self, op_offset: int) -> None:
-        """Has to be called BEFORE writing the opcode."""
+    def source_map_add_opcode(self, op_offset: int, in_current_line: bool = False) -> None:
+        """
+        Has to be called BEFORE writing the opcode. Statements start in a new line after the indent; if
+        in_current_line, the statement is written (after one space) behind what the current line already contains.
+        """
         assert self.smb is not None
-        # TODO: Assumes that all statements start in a new line after indent.
-        #       Might need this more flexible.
-        self.smb.add_opcode(op_offset, self._line_number, self.indent * NUMBER_OF_SPACES_PER_INDENT)
+        if in_current_line:
+            column = len(self._output) - (self._output.rfind("\n") + 1) + 1
+            self.smb.add_opcode(op_offset, self._line_number - 1, column)
+        else:
+            self.smb.add_opcode(op_offset, self._line_number, self.indent * NUMBER_OF_SPACES_PER_INDENT)
 
     def source_map_add_position_mark(self, length: int, param: SsbOpParamPositionMarker) -> None:
         assert self.smb is not None
